@@ -1542,7 +1542,7 @@ fn main() {
     let budget_s: f64 = std::env::var("VERIF_C04_BUDGET_S")
         .ok()
         .and_then(|s| s.parse().ok())
-        .unwrap_or(args.tier.pick(50.0, 1500.0));
+        .unwrap_or(args.tier.pick(150.0, 1500.0) * vcore::budget_scale());
     let t0 = std::time::Instant::now();
     let results = vcore::par_for(nchunks, vcore::ncores(), |ci| {
         let mut st = Stats::default();
